@@ -148,6 +148,8 @@ class Fx:
                         for lid in self.lock_ids(f2, t['args'][0]):
                             if lid == 'Watchers.map':
                                 kinds.add('watcher')
+                            elif lid == 'ClusterState.members':
+                                kinds.add('member')
                             else:
                                 kinds.add('lock:' + lid)
                         continue
